@@ -289,6 +289,8 @@ def main(mod, argv=None):
             if cs is None or (cs['lines'] - cs['hit']) > allowed_missing + 0.15 * cs['lines']:
                 lines.append(f'HARNESS-ERROR property={pid} line coverage of {name} incomplete: {cs}')
                 status = 2 if status != 1 else 1
+    if nviol > 0:
+        status = 1      # a violation replayed on the real code is the verdict, whatever else went wrong in other items
     wall = time.time() - t0
     names, shash = mod.sources()
     ev = dict(
